@@ -338,6 +338,7 @@ RULE = (
     "point), facet equations and an LP for the largest multiple inside the hull (boundary hit), and for the slice the plane equation, a "
     "membership LP and equality of support functions in 12 random directions plus +-axes with the LP optimum over hull(P) cap plane. "
     "Non-trivial = the projection moves the point, a boundary hit, a slice (lattice / few points / through a vertex flagged separately)."
+    " Slice: also flat clouds (more points than dimensions in an r < d dimensional affine subspace, thin extents down to 1e-3) and tied vertices (several rows whose sums agree up to the last bit, c equal to one of them); oracle = exact enumeration (rows on the plane + crossings of all below/above pairs) over the band |c1-c| <= 1e-9 (upper envelope always, lower envelope when rows lie clearly beyond the plane on both sides). Boundary hit: vector lengths 1e-12..1e6 and cloud sizes 1e-6..1e3, alpha(s b) = alpha(b)/s."
 )
 
 PROP = Prop(
